@@ -84,6 +84,17 @@ def tree_spec(variant: int, base: str):
         ("sb/nd.md", "l", "f.md/x"),
         ("sb/l2.md", "l", "lfi.md"),
     ]
+    if variant == 1:
+        # pre-existing entries beside two write targets, named after them, each a link leaving the sandbox (see sibling_ops)
+        import random
+        r = random.Random(17)
+        t += [("out/sibs", "d", ""), ("out/sibdir", "d", "")]
+        for nm in ("new.md", "f.md"):
+            for op in sibling_ops("sb", nm, r, nm.split(".")[0])[2:][:22]:
+                if op[0] == "f":
+                    t.append((op[1], "f", op[2]))
+                elif op[0] == "l":
+                    t.append((op[1], "l", op[2].replace("{H}", base)))
     if variant >= 2:
         t += [("sb/d/e/deep.md", "l", "../../../out/sd/s2.oct.md"), ("sb/d/dang2.octave", "l", "nowhere/x.octave"),
               ("sb/lsd", "l", tgt("../out/sd", base + "/out/sd"))]
@@ -344,7 +355,13 @@ def _one_call(tool, p, env):
                     rp = os.path.realpath(os.path.dirname(ax.rstrip("/")) or "/")
                     if not any((rp + "/").startswith(sd + "/") for sd in sand):
                         outside.append((n, x.replace(base, "{B}")))
+    try:
+        tp = os.path.join(cwd, p)
+        tkind = ("l" if os.path.islink(tp) else "d" if os.path.isdir(tp) else "f") if os.path.lexists(tp) else None
+    except ValueError:
+        tkind = None
     return {
+        "target_kind": tkind,
         "outcome": oc, "diff": diff, "n_meta": sum(1 for o in ops if o[1] == META),
         "io": [(n, c, [x.replace(base, "{B}") for x in a]) for (n, c, a) in io_ops][:8],
         "tried": [(n, c, [x.replace(base, "{B}") for x in a], e) for (n, c, a, e) in tried][:6],
@@ -1198,6 +1215,39 @@ def h_config_ops(sb, cfg, name, need_file):
     return ops
 
 
+def sibling_names(name, rng):
+    """Names a writer might stage its output under, derived from the target's name (never a fixed list of one): suffixes,
+    dot-prefixed, editor/backup/lock conventions, random-suffix forms, tmp-prefixed forms as mkstemp would give with a guessable
+    random part."""
+    r6 = "".join(rng.choice("abcdefghijklmnopqrstuvwxyz0123456789_") for _ in range(6))
+    r8 = "".join(rng.choice("abcdefghijklmnopqrstuvwxyz0123456789_") for _ in range(8))
+    stem = name.split(".")[0]
+    return [name + ".tmp", "." + name + ".tmp", name + "~", name + ".bak", name + ".lock", name + ".swp", "." + name + ".swp",
+            "." + name + "." + r6, name + "." + r6, name + ".new", name + ".orig", name + ".part", name + ".tmp~", "#" + name + "#",
+            ".~lock." + name + "#", "tmp" + name, "tmp" + name + ".tmp", "tmp.tmp", ".tmp", "tmp00000000.tmp", "tmpaaaaaaaa.tmp",
+            "tmp" + r8 + ".tmp", stem + ".tmp", "." + stem + ".tmp", name + ".1", name + ".old"]
+
+
+def sibling_ops(dir_rel, name, rng, tag):
+    """Pre-existing entries beside the target `dir_rel/name`: each a symbolic link -- to its OWN file outside the sandbox (absolute
+    or relative target), to an outside directory, or dangling into the outside directory."""
+    ops = [("d", "out/sibs"), ("d", "out/sibdir")]
+    for i, sn in enumerate(sibling_names(name, rng)):
+        link = dir_rel + "/" + sn
+        kind = i % 4
+        if kind == 0:
+            tgt_rel = "out/sibs/%s_%d.md" % (tag, i)
+            ops += [("f", tgt_rel, SECRET), ("l", link, "{H}/" + tgt_rel)]
+        elif kind == 1:
+            tgt_rel = "out/sibs/%s_%d.oct.md" % (tag, i)
+            ops += [("f", tgt_rel, SECRET), ("l", link, os.path.relpath(tgt_rel, dir_rel))]
+        elif kind == 2:
+            ops.append(("l", link, os.path.relpath("out/sibs/absent_%s_%d.md" % (tag, i), dir_rel)))      # dangling: a write would CREATE it
+        else:
+            ops.append(("l", link, "{H}/out/sibdir"))
+    return ops
+
+
 def gen_histories(ctx):
     rng = ctx.rng
     hs = []
@@ -1232,6 +1282,18 @@ def gen_histories(ctx):
                             name, form, order)
                     if kind in ("out-abs", "in-rel"):
                         add(tool, "chdir:" + ("accept-first" if order[0][0] == "real" else "refuse-first"), name, "rel", order, chdir=True)
+    # ---- pre-existing sibling entries: the target path is clean, its directory holds links named after it ----
+    for tool in ("w", "wd", "wn", "wnd", "wc", "wcd", "f", "cli", "clic"):
+        for ni, name in enumerate(("n" + H_EXTS[k % 3], "report.v2" + H_EXTS[(k + 1) % 3], "UPPER" + H_EXTS[(k + 2) % 3])):
+            k += 1
+            for present in ((True,) if tool in H_NEED_FILE else (False, True)):
+                init = h_init_ops("sb", name)
+                first = h_config_ops("sb", ("real",), name, present) + sibling_ops("sb/a/b", name, rng, "h%d" % len(hs))
+                for form in (("abs", "{H}/sb/a/b/" + name), ("rel", "a/b/" + name)):
+                    steps = [{"ops": first, "cwd": "sb", "path": form[1], "state": "real", "cfg": ["real", "siblings", present]},
+                             {"ops": [], "cwd": "sb", "path": form[1], "state": "real", "cfg": ["real", "siblings", "again"]}]
+                    hs.append({"id": len(hs), "tool": tool, "kind": "siblings:" + ("target-present" if present else "target-absent"),
+                               "form": form[0], "init": init, "steps": steps, "sandboxes": ["sb"]})
     for _ in range(ctx.scale(0, 2500)):
         tool = rng.choice(H_TOOLS)
         name = rng.choice(("n", "report", "x.tar")) + rng.choice(H_EXTS)
@@ -1391,6 +1453,15 @@ def judge_call(ctx, case, tool, c, feat, m, oom):
         return
     if c["out_changed"] or c["outside"]:
         ctx.property_failure(case, "a path outside the sandbox was created/modified")
+        return
+    made_links = [d for d in c["diff"] if d[2] == "l"]
+    if made_links:
+        ctx.property_failure(dict(case, links_created_or_changed=made_links),
+                             "after the call a path in the tree IS a symbolic link that was not there (or pointed elsewhere) before: the tool "
+                             "created / moved / retargeted a link (a written target must be a regular file inside the base: lstat)")
+        return
+    if c.get("target_kind") not in (None, "f") and is_accepted(c["outcome"]) and tool != "vp" and tool != "v":
+        ctx.property_failure(dict(case, target_lstat=c.get("target_kind")), "the call reports success but the target is not a regular file (lstat)")
         return
     if oc.startswith("E_PATH") and (changed or touched or c["tried"]):
         ctx.property_failure(case, "file-system read/mutation performed although the path was refused with E_PATH")
